@@ -101,6 +101,12 @@ class ElabPass:
         `elaborate_module_base` instead.
         """
 
+        # A Module in which a pass failed is refused by every pass, on every later attempt, with the error raised at the time.
+        # Passes rewrite Modules in place: a failed one leaves its Module part-way between what was designed and what it
+        # should become, and the passes before it are not run again. What remains would otherwise be taken for the design.
+        if getattr(module, "_elab_failure", None) is not None:
+            raise module._elab_failure
+
         # Check if this has already been elaborated by this pass/ class
         if module in self.CLASS_LEVEL_CACHE.done:
             return module
@@ -115,24 +121,32 @@ class ElabPass:
             return self.fail(msg)
         self.CLASS_LEVEL_CACHE.pending.add(module)
 
-        # Depth-first traverse instances, ensuring their targets are defined
-        for inst in module.instances.values():
-            self.elaborate_instance_base(inst)
-        for arr in module.instarrays.values():
-            self.elaborate_instance_base(arr)
-        for instbundle in module.instbundles.values():
-            self.elaborate_instance_base(instbundle)
+        # The cache outlives this call, and any exception it ends with.
+        # `module` is `pending` only while it is being visited, however that visit ends.
+        try:
+            # Depth-first traverse instances, ensuring their targets are defined
+            for inst in module.instances.values():
+                self.elaborate_instance_base(inst)
+            for arr in module.instarrays.values():
+                self.elaborate_instance_base(arr)
+            for instbundle in module.instbundles.values():
+                self.elaborate_instance_base(instbundle)
 
-        # Traverse Bundle instances
-        for bundle in module.bundles.values():
-            self.elaborate_bundle_instance(bundle)
+            # Traverse Bundle instances
+            for bundle in module.bundles.values():
+                self.elaborate_bundle_instance(bundle)
 
-        # Run the pass-specific `elaborate_module`
-        result = self.elaborate_module(module)
+            # Run the pass-specific `elaborate_module`
+            try:
+                result = self.elaborate_module(module)
+            except Exception as e:
+                module._elab_failure = e
+                raise
+        finally:
+            self.CLASS_LEVEL_CACHE.pending.remove(module)
 
         # Pop the hierarchy-stack and return it
         self.stack.pop()
-        self.CLASS_LEVEL_CACHE.pending.remove(module)
         self.CLASS_LEVEL_CACHE.done.add(module)
         return result
 
